@@ -392,8 +392,114 @@ def check_C08(K, prop, tier, seed, t0):
     return 1 if unknown else 0
 
 
+def sendsync_probe(K):
+    """Scanner: Send + Sync as a compile-time fact (harness/sendsync). Returns (ok, compiler output)."""
+    d = os.path.join(K.HARNESS_DIR, "sendsync")
+    p = subprocess.run(["cargo", "build", "--offline"], cwd=d, env=K.base_env(), stdout=subprocess.PIPE, stderr=subprocess.STDOUT, text=True)
+    if p.returncode == 0:
+        return True, ""
+    if "E0277" in p.stdout:
+        return False, p.stdout
+    K.log(p.stdout[-3000:])
+    raise K.ToolError("sendsync probe: build failed for a reason other than E0277")
+
+
+def check_C14(K, prop, tier, seed, t0):
+    q = tier == "quick"
+    files = []
+    vroot = os.path.join(K.WORK, f"{prop}-{os.getpid()}"); os.makedirs(vroot, exist_ok=True)
+    # static side condition
+    ok, out = sendsync_probe(K)
+    if not ok:
+        path = os.path.join(vroot, "sendsync.json")
+        with open(path, "w") as f:
+            json.dump(dict(kind="sendsync", configurations=["fn f<T: Send + Sync>() {} f::<scnr::Scanner>()"], inputs=[], calls_specified=[],
+                           difference="Scanner (or a value type) is not Send + Sync: the probe crate does not compile (E0277)", compiler=out[-3000:]), f, indent=1)
+        files.append(path)
+    # M: exhaustive model check of the design
+    d = K.leg_dir(prop, "model")
+    with open(os.path.join(d, "mc.cfg"), "w") as f:
+        f.write("SPECIFICATION CSpec\nCONSTANTS\n  Threads <- MCThreads\n  Keys <- MCKeys\n  BadKeys <- MCBad\n  ProgSpace <- MCProgSpace\n"
+                "INVARIANTS TypeOK CacheCoherentC SequentialResults\nPROPERTIES Termination FailLeavesCache\nCHECK_DEADLOCK FALSE\n")
+    pr = subprocess.run(K.tlc_cmd(8, os.path.join(d, "md"), "mc.cfg", "MC_CacheConc.tla", extra=("-coverage", "1")), cwd=d, env=K.tlc_env(),
+                        stdout=subprocess.PIPE, stderr=subprocess.STDOUT, text=True)
+    lines = pr.stdout.splitlines()
+    mgen, mdist, errs = K.parse_tlc(lines)
+    if pr.returncode != 0 or errs or mgen is None or not any("No error has been found" in l for l in lines):
+        K.log("\n".join(lines[-40:])); raise K.ToolError("MC_CacheConc: model checking failed (the specification itself is broken)")
+    # coverage: every action of the critical section must have been taken
+    zero = [l for l in lines if l.startswith("<") and l.rstrip().endswith(": 0:0")]
+    if zero:
+        K.log("\n".join(zero)); raise K.ToolError("MC_CacheConc: an action was never taken (vacuous model)")
+    K.log(f"[model] CacheConc: {mdist} distinct states, invariants and liveness hold")
+    # T: sampled real schedules
+    n = 200 if q else 20000
+    rec = os.path.join(vroot, "threads")
+    p = subprocess.run([K.HARNESS, "threads", str(n), str(seed), rec, "16" if not q else "8"], env=K.base_env(), stdout=subprocess.PIPE, stderr=subprocess.PIPE, text=True, timeout=3000)
+    if p.returncode != 0:
+        K.log(p.stderr[-2000:]); raise K.ToolError("harness threads failed")
+    info = json.loads(p.stdout.strip().splitlines()[-1])
+    with open(os.path.join(rec, "threads.json")) as f:
+        tj = json.load(f)
+    if info["hangs"]:
+        path = os.path.join(vroot, "hang.json")
+        hs = [s for s in tj["schedules"] if s.get("hang")]
+        with open(path, "w") as f:
+            json.dump(dict(kind="threads", configurations=[hs[0].get("modes")], inputs=[], calls_specified=[], schedule=hs[0],
+                           difference="threads did not finish within 30 s: deadlock or livelock"), f, indent=1)
+        files.append(path)
+    # (i) the cache event log is a behaviour of CacheConc's critical section
+    d2 = K.leg_dir(prop, "cachetrace")
+    with open(os.path.join(d2, "tc.cfg"), "w") as f:
+        f.write("INIT TCInit\nNEXT TCNext\nCONSTANTS\n  Threads = {1}\n  Keys = {1}\n  BadKeys = {}\n  ProgSpace = {}\n"
+                "POSTCONDITION CacheTraceAccepted\nCHECK_DEADLOCK FALSE\n")
+    ctrace = os.path.join(rec, "cache_trace.ndjson")
+    pr = subprocess.run(K.tlc_cmd(1, os.path.join(d2, "md"), "tc.cfg", "Trace_Cache.tla"), cwd=d2, env=K.tlc_env({"VERIF_CACHE_TRACE": ctrace}, deque=True),
+                        stdout=subprocess.PIPE, stderr=subprocess.STDOUT, text=True)
+    lines = pr.stdout.splitlines()
+    cgen, cdist, errs = K.parse_tlc(lines)
+    acc = [l for l in lines if l.startswith('<<"TRACE-ACCEPTED"')]
+    rej = [l for l in lines if l.startswith('<<"TRACE-REJECTED-AT"')]
+    if not acc and not rej:
+        K.log("\n".join(lines[-30:])); raise K.ToolError("Trace_Cache: no verdict")
+    if rej:
+        at = int(rej[0].split(",")[1].strip(" >"))
+        with open(ctrace) as f:
+            evs = [json.loads(l) for l in f]
+        path = os.path.join(vroot, "cachetrace.json")
+        with open(path, "w") as f:
+            json.dump(dict(kind="cachetrace", configurations=[], inputs=[], calls_specified=evs[max(0, at - 12):at], rejected_event=evs[at - 1],
+                           difference="the cache event log (emitted under the lock) is not a behaviour of CacheConc's critical-section actions"), f, indent=1)
+        files.append(path)
+    K.log(f"[cache-trace] {info['cache_events']} events over {info['keys']} keys: {'accepted' if acc else 'REJECTED'}")
+    # (ii) every thread observes the sequential results
+    stats, viols, _ = K.validate_recorded(prop, "thread-results", rec, shards=8)
+    files.extend(viols)
+    K.log(f"[thread-results] {stats['accepted'] + stats['rejected']} thread traces / {stats['events']} events, {stats['rejected']} rejected")
+    unknown = K.report_violations(prop, files, len(files))
+    with open(os.path.join(rec, "meta.json")) as f:
+        meta = json.load(f)
+    cov = dict(states=mdist + (cdist or 0) + stats["states"], transitions=mgen + (cgen or 0) + stats["states"],
+               traces_validated_against_impl=stats["accepted"] + stats["rejected"] + 1, evaluations=info["cache_events"] + stats["events"],
+               distinct_nontrivial=info["keys"],
+               samples=[{"schedule": meta[0].get("schedule"), "thread": meta[0].get("thread"), "events": meta[0]["last_event"] - meta[0]["first_event"] + 1,
+                         "configuration": meta[0]["modes"]}] if meta else [{"note": "none"}],
+               rule="model: 3 threads x all build programs of length <= 2 over {A, B, bad}, all interleavings (MutualExclusion by construction of the lock "
+                    "variable, CacheCoherent, SequentialResults, Termination under weak fairness); code: N=2..8 (quick) / 2..16 threads released by a barrier, "
+                    "seeded programs of cached/uncached builds (hits, misses, failing builds) and scans of shared and private scanners with random yields; "
+                    "the under-lock event log is validated against CacheConc and every thread's calls against the sequential ScannerApi; "
+                    "distinct_nontrivial = distinct cache keys requested",
+               model_states=mdist, schedules=n, cache_events=info["cache_events"], sendsync_probe="compiles" if ok else "E0277", hangs=info["hangs"])
+    K.write_evidence(prop, tier, seed, "model_checking", cov,
+                     ["sampled schedules of the real code, not all schedules; the model is checked exhaustively for 3 threads",
+                      "cache events are emitted by the verif_hooks inside ScannerCache::get while the write lock is held",
+                      "Send/Sync is a compile-time fact checked by a probe crate"], time.time() - t0, len(files))
+    return 1 if unknown else 0
+
+
 CHECKS = {
     "C01": check_C01,
+    "C14": check_C14,
     "C08": check_C08,
     "C16": check_C16,
     "C18": check_C18,
